@@ -246,8 +246,9 @@ def run(ctx):
                 d, mm, diff = cr.decode_both(framed, uid=1, gid=1)
                 if diff:
                     mism.append(cr.mismatches[-1])
-                got = d and (d["error_num"], d["cipher"], d["mac"], d["zip"], d["cred_uid"], d["cred_gid"], d["ttl"], d["time0"], d["addr_len"], d["data"])
-                want = (0, c, m, z, uid, gid, 55, t0, len(addr), data)
+                got = d and (d["error_num"], d["cipher"], d["mac"], d["zip"], d["cred_uid"], d["cred_gid"], d["ttl"], d["time0"], d["addr_len"], d["data"],
+                             d["realm"])
+                want = (0, c, m, z, uid, gid, 55, t0, len(addr), data, (realm + b"\0") if realm else b"")
                 if framed is cred:
                     want = (17,) + want[1:]      # second presentation of the same credential: replayed, fields still reported
                 if d is None or got[0] != want[0] or (got[0] == 0 and got != want):
